@@ -534,6 +534,9 @@ def self_baseline_variants(res):
             "gen\\models.py": "import pickle\nassert x\n",
             "dir\\sub\\m.py": "exec(c)\n",
         }
+        import diffhints
+        for hn in diffhints.file_names(C.REPO)[:8]:      # names built from literals of changed lines (none on the recorded tree)
+            progs.setdefault(hn, "import pickle\nassert x\n")
         for name, src in progs.items():
             p = os.path.join(d, name)
             for n in ("0", "1", "3", "10"):
